@@ -20,7 +20,7 @@ import xonsh.commands_cache as CC
 import xonsh.procs.executables as E
 from xonsh.built_ins import XSH
 
-from vf.api import Obligation, Skip, concretely, viol
+from vf.api import Gappy, Obligation, Skip, concretely, gappy, viol
 
 STUBS = [
     "os (as seen from xonsh.procs.executables and xonsh.commands_cache) -> ModelFS facade: path.realpath/isdir/exists/getmtime/isfile/"
@@ -31,7 +31,7 @@ STUBS = [
     "time.perf_counter (debug timing) -> constant",
 ]
 ASSUMPTIONS = [
-    "the clock of the model file system is a counter: every mutation that touches a directory gives it a fresh mtime",
+    "the clock of the model file system is a counter of 4 ms ticks from an epoch-sized start (1.79e9 s): every mutation that touches a directory gives it a fresh, distinct float mtime",
     "case-sensitive POSIX file system",
 ]
 OUTSIDE = ["Windows PATHEXT", "which file a spawned child really executes (execvp)", "$XONSH_COMMANDS_CACHE_READ_DIR_ONCE stable directories",
@@ -55,13 +55,19 @@ def _pick(pool, i):
     return pool[j]
 
 
+# realistic st_mtime values: epoch-sized floats that differ by one scheduler tick - a comparison that rounds,
+# truncates or tolerates (int(mtime), isclose) must not pass for equality
+EPOCH = 1790000000.0
+TICK = 0.004
+
+
 class World:
     def __init__(self):
         self.ent = {}  # (dir, name) -> kind
-        self.mtime = {}  # dir -> int
-        self.clock = 1
+        self.mtime = {}  # dir -> float (epoch seconds, like st_mtime)
+        self.clock = EPOCH
         for d in DIRS + [CWD, "/m/cwd/rel"]:
-            self.mtime[d] = 0
+            self.mtime[d] = EPOCH
         self.links = {"/m/ln0": "/m/d0"}
 
     def real(self, p):
@@ -85,7 +91,7 @@ class World:
         return k
 
     def touch_dir(self, d):
-        self.clock += 1
+        self.clock += TICK
         self.mtime[d] = self.clock
 
     def set(self, d, n, k):
@@ -139,7 +145,7 @@ class MPath:
         return self.p
 
 
-class ModelOS:
+class ModelOS(Gappy):
     sep = "/"
     altsep = None
     X_OK = 1
@@ -182,7 +188,7 @@ class ModelOS:
                     raise FileNotFoundError(r)
                 return w.mtime[r]
 
-        self.path = P
+        self.path = gappy(P, "os_path")
 
     @staticmethod
     def fspath(p):
